@@ -554,19 +554,23 @@ def trim (r : Repo) (bi : Nat) (height : Int) : M Repo :=
     let (keep, _) := r1.branches.foldl (trimStep r1 bi height) ([], [])
     .ok { r1 with branches := keep }
 
+/-- the list part of `MarkHeaderInvalid`: a hash already in the list is neither appended nor written again. -/
+def markRecord (r : Repo) (id : Nat) : Repo :=
+  if r.invalid.contains id then r else saveInvalid { r with invalid := r.invalid ++ [id] }
+
+/-- `MarkHeaderInvalid` (as repaired: a hash that is already in the list — the configured hashes get there on
+    Load without a look at the accepted headers — is still looked for in the branches and trimmed). -/
 def markInvalid (r : Repo) (id : Nat) : Repo × Option Fail :=
-  if r.invalid.contains id then (r, none)
-  else
-    let r1 := saveInvalid { r with invalid := r.invalid ++ [id] }
-    match r1.branchesFind id with
-    | none => (r1, none)          -- not accepted (yet): the mark only pre-empts it
-    | some (bi, h) =>
-      match trim r1 bi h with
-      | .error e => (r1, some e)
-      | .ok r2 =>
-        match longestOf r2.arena r2.branches with
-        | none => (r2, some (.panic "Longest() after trim"))
-        | some lg => ({ r2 with longest := lg }, none)
+  let r1 := markRecord r id
+  match r1.branchesFind id with
+  | none => (r1, none)          -- not accepted (yet): the mark only pre-empts it
+  | some (bi, h) =>
+    match trim r1 bi h with
+    | .error e => (r1, some e)
+    | .ok r2 =>
+      match longestOf r2.arena r2.branches with
+      | none => (r2, some (.panic "Longest() after trim"))
+      | some lg => ({ r2 with longest := lg }, none)
 
 def markNotInvalid (r : Repo) (id : Nat) : Repo :=
   if r.invalid.contains id then
